@@ -411,6 +411,10 @@ def check(ctx):
     with ctx.shared({"C03.R4": ("C06.R7", "on every path that completes a reload both tables are swapped (prefix and router-key table together, "
                                 "exactly once), never on a failing path; shadow tables are always released silently")}):
         C03.r2_r3_r4(ctx, retsets)
+    from specs import C07
+    with ctx.shared({"C07.R3": ("C06.R8", "outside a reload a socket's records leave the live tables only when they have expired (expire_interval, not a "
+                                "shorter timer): a reload that starts later than refresh_interval still replaces the old set atomically")}):
+        C07.r3(ctx, retsets)
     ctx.not_decided("reader-visible states inside user callbacks; equality of the new data set with the cache's set")
 
 
